@@ -136,7 +136,10 @@ impl CPU {
         let r = a.wrapping_add(n).wrapping_add(c);
         self.reg.flags.z = r == 0x00;
         self.reg.flags.s = (r as i8) < 0;
-        self.reg.flags.p = check_add_overflow(self.reg.a, n.wrapping_add(c));
+        self.reg.flags.p = {
+            let r = i16::from(a as i8) + i16::from(n as i8) + i16::from(c);
+            !(-128..=127).contains(&r)
+        };
         self.reg.flags.h = (a & 0x0f) + (n & 0x0f) + c > 0x0f;
         self.reg.flags.c = u16::from(a) + u16::from(n) + u16::from(c) > 0xff;
         self.reg.flags.n = false;
@@ -166,7 +169,10 @@ impl CPU {
         let r = a.wrapping_sub(n.wrapping_add(c));
         self.reg.flags.z = r == 0x00;
         self.reg.flags.s = (r as i8) < 0;
-        self.reg.flags.p = check_sub_overflow(self.reg.a, n.wrapping_add(c));
+        self.reg.flags.p = {
+            let r = i16::from(a as i8) - i16::from(n as i8) - i16::from(c);
+            !(-128..=127).contains(&r)
+        };
         self.reg.flags.h = (a as i8 & 0x0f) < (n as i8 & 0x0f).wrapping_add(c as i8);
         self.reg.flags.c = u16::from(a) < (u16::from(n) + u16::from(c));
         self.reg.flags.n = true;
@@ -332,8 +338,8 @@ impl CPU {
         self.reg.flags.h = (h & 0x0FFF) + (n & 0x0FFF) + c > 0x0FFF;
         self.reg.flags.n = false;
         self.reg.flags.p = {
-            let r = (h as i16).overflowing_add((n + c) as i16);
-            r.1
+            let r = i32::from(h as i16) + i32::from(n as i16) + i32::from(c);
+            !(-32768..=32767).contains(&r)
         }
     }
 
@@ -349,11 +355,11 @@ impl CPU {
         self.reg.flags.z = r == 0x00;
         self.reg.flags.s = (r as i16) < 0;
         self.reg.flags.h = (h & 0x0fff) < (n & 0x0fff) + c;
-        self.reg.flags.c = h < n + c;
+        self.reg.flags.c = u32::from(h) < u32::from(n) + u32::from(c);
         self.reg.flags.n = true;
         self.reg.flags.p = {
-            let r = (h as i16).overflowing_sub((n + c) as i16);
-            r.1
+            let r = i32::from(h as i16) - i32::from(n as i16) - i32::from(c);
+            !(-32768..=32767).contains(&r)
         }
     }
 
